@@ -36,7 +36,7 @@ abbrev P (α : Type) := List String → Option (α × List String)
 def decStr (s : String) : Option String :=
   if s == "=" then some "" else
   match s.toList with
-  | '=' :: r => ((String.ofList r).splitOn ".").mapM (fun d => d.toNat?.map Char.ofNat) |>.map String.ofList
+  | '=' :: r => ((String.ofList r).splitOn ".").mapM (fun (d : String) => d.toNat?.map Char.ofNat) |>.map String.ofList
   | _ => none
 
 def encStr (s : String) : String := "=" ++ ".".intercalate (s.toList.map fun c => toString c.toNat)
@@ -279,7 +279,7 @@ def elemText (a : Ann) (kids : Forest Ann) : String :=
 def report (s : Schema) : Nat → Forest Ann → List String
   | _, .nil => []
   | start, .leaf _ _ r => report s (start + 1) r
-  | start, .elem a n ats _ kids rest =>
+  | start, .elem a _ ats _ kids rest =>
     let m := elemTypedValue s a ats kids
     let sp := specElemValue s a ats kids
     let ct := a.xsdType.bind (contentType s)
@@ -329,12 +329,12 @@ def answer (line : String) : String :=
             match pCounted pQuery r with
             | none => "bad-query"
             | some (qs, _) =>
-              let at := applySchema s t
-              let recs := report s 0 at
-              let absd := absentDefault s at
-              let c := s!"c|{if sameAnn s at (applyF s none t) then 1 else 0}|{if allTypedB at then 1 else 0}|{if absd then 1 else 0}"
+              let ann := applySchema s t
+              let recs := report s 0 ann
+              let absd := absentDefault s ann
+              let c := s!"c|{if sameAnn s ann (applyF s none t) then 1 else 0}|{if allTypedB ann then 1 else 0}|{if absd then 1 else 0}"
               let ps := qs.zipIdx.map fun ((dummy, e), k) =>
-                let m := select (Cfg.typed s dummy) (!dummy) at e
+                let m := select (Cfg.typed s dummy) (!dummy) ann e
                 let sp := select Cfg.plain (!dummy) t e
                 let fl := ",".intercalate ((if dummy && starAtDoc false e then ["F20b"] else []) ++
                   (if absd then ["F20d"] else []))
